@@ -600,7 +600,7 @@ class EffectsEngine(Engine):
             or st["new"] in NEWNAMES[4:]
             or (k == "restructure" and st["pattern"] == "${")
             or (k == "change_signature" and any((c[0] in ("remove", "inline_default") and c[1] > 1) or (c[0] == "reorder" and len(c[1]) < 2) for c in st["changers"]))
-            or (k == "move_module" and (st["dest"] in ("pkg/util.py",) or st["dest"] == st["path"] or st["dest"].startswith(st["path"] + "/") or st["dest"] == "ignored_dir"))
+            or (k == "move_module" and (st["dest"] in ("pkg/util.py",) or st["dest"] == st["path"] or st["dest"].startswith(st["path"] + "/")))
             or (k == "move_method" and st["dest_attr"] == "nosuch")
             or st["path"] == "notes.txt"
             or (k == "move_module" and st["dest"].startswith("ext:"))
